@@ -1,9 +1,9 @@
 #!/bin/sh
-# usage: tools/seedtest.sh <ID> <variant> [tier]  -- confirm a seeded change (from ${SEED_ROOT:-/tmp/seed5}/<ID>out/<variant>)
-# in the scratch worktree ${SEED_ROOT:-/tmp/seed5}/<ID>w and run the property's check against it.
+# usage: tools/seedtest.sh <ID> <variant> [tier]  -- confirm a seeded change (from ${SEED_ROOT:-/tmp/seed6}/<ID>out/<variant>)
+# in the scratch worktree ${SEED_ROOT:-/tmp/seed6}/<ID>w and run the property's check against it.
 ID=$1; V=$2; TIER=${3:-quick}
-W=${SEED_ROOT:-/tmp/seed5}/${ID}w; O=${SEED_ROOT:-/tmp/seed5}/${ID}out/$V
-LOG=${SEED_ROOT:-/tmp/seed5}/${ID}out/$V/confirm.log
+W=${SEED_ROOT:-/tmp/seed6}/${ID}w; O=${SEED_ROOT:-/tmp/seed6}/${ID}out/$V
+LOG=${SEED_ROOT:-/tmp/seed6}/${ID}out/$V/confirm.log
 : > $LOG
 git -C $W checkout -q --detach main 2>>$LOG; git -C $W checkout -q -- . 
 cd $W || exit 2
